@@ -102,7 +102,10 @@ def run(rep, br, proofs, rng, tier):
             for cpos in cut: parts.append("\n".join(ls[prev:cpos])); prev = cpos
             parts.append("\n".join(ls[prev:]))
             src = "\n//CUT\n".join(parts)
-        c = mk_case("p%d" % i, "disprog", rng.choice(["opt", "noopt"]), mode, ["dis"] + [hexs(n.encode()) for n in dis_names], hexs(src.encode()), *[hexs(m.encode()) for m in MODS])
+        # the host may have declared a global of the same name before it disables the builtin (a replacement of its own):
+        # the name is no builtin for the script, and still disabled for the modules it imports
+        pre = [n for n in dis_names if n != ":makeArray" and rng.random() < .25]
+        c = mk_case("p%d" % i, "disprog", rng.choice(["opt", "noopt"]), mode, ["dis"] + [("g" if n in pre else "") + hexs(n.encode()) for n in dis_names], hexs(src.encode()), *[hexs(m.encode()) for m in MODS])
         c["src"], c["dis"] = src, dis_names
         pcases.append(c)
     impl_p, _ = vlib.run_impl([c["line"] for c in pcases], timeout=2400)
@@ -128,7 +131,7 @@ def run(rep, br, proofs, rng, tier):
     nt = sum(1 for c in cases if any(o[0] == "disable" for o in c["args"]) and any(o[0] == "resolve" for o in c["args"]))
     rep.coverage.update({
         "evaluations": len(cases) + len(pcases), "distinct_nontrivial": nt + compiled,
-        "rule": "seeded operation histories over the exported SymbolTable API (fork/leave/resolve/define*/params/disable) run on the real table and the model; generated scripts mentioning builtins in calls, shadowing declarations (:=, func params, for-in, catch), constants, nested functions, destructuring and module imports, compiled with random disabled subsets, optimizer on/off, batch or cut into Eval fragments, with instrumented builtins; non-trivial = history has a disable and a resolve / script compiled",
+        "rule": "seeded operation histories over the exported SymbolTable API (fork/leave/resolve/define*/params/disable) run on the real table and the model; generated scripts mentioning builtins in calls, shadowing declarations (:=, func params, for-in, catch), constants, nested functions, destructuring and module imports, compiled with random disabled subsets (a quarter of the names declared as host globals before they are disabled), optimizer on/off, batch or cut into Eval fragments, with instrumented builtins; non-trivial = history has a disable and a resolve / script compiled",
         "samples": [cases[0]["line"], pcases[0]["src"], pcases[1]["src"]],
         "programs": len(pcases), "programs_compiled": compiled, "programs_rejected": rejected,
         "disagreements": len(dis), "oracle_failures": len(fails)})
